@@ -11,35 +11,39 @@ namespace PyTealV.Proofs.C02Gen
 open PyTealV PyTealV.Avm PyTealV.Src PyTealV.Comp PyTealV.Models.FragmentR PyTealV.Models.Optimizer
 open PyTealV.Proofs.Ops
 
-/-- results of `execPrim` equal up to the representation of the scratch space -/
-def CongR : M (List Val × World) → M (List Val × World) → Prop
-  | .ok (st, a), .ok (st', b) => st = st' ∧ SameW a b
+/-- results of `execPrim` equal up to `SameW` -/
+def CongR (I : List Nat) : M (List Val × World) → M (List Val × World) → Prop
+  | .ok (st, a), .ok (st', b) => st = st' ∧ SameW I a b
   | .error f, .error f' => f = f'
   | _, _ => False
 
-theorem congR_framed {op : String} (h : framedOps.contains op = true) (cx : Ctx) (imms : List String)
-    {a b : World} (hw : SameW a b) (st : List Val) :
-    CongR (execPrim cx op imms a st) (execPrim cx op imms b st) := by
-  have e1 := execPrim_frame cx op imms a b.scratch st h
+/-- a framed opcode leaves the scratch space as it is -/
+theorem framed_scratch {op : String} (h : framedOps.contains op = true) (cx : Ctx) (imms : List String)
+    {a a' : World} {st st' : List Val} (hA : execPrim cx op imms a st = .ok (st', a')) : a'.scratch = a.scratch := by
   have e2 := execPrim_frame cx op imms a a.scratch st h
+  have e3 : execPrim cx op imms { a with scratch := a.scratch } st = execPrim cx op imms a st := rfl
+  rw [e3, hA] at e2
+  simp only [Except.map, setSc, Except.ok.injEq, Prod.mk.injEq, true_and] at e2
+  rw [e2]
+
+theorem congR_framed {op : String} (h : framedOps.contains op = true) (cx : Ctx) (imms : List String)
+    {I : List Nat} {a b : World} (hw : SameW I a b) (st : List Val) :
+    CongR I (execPrim cx op imms a st) (execPrim cx op imms b st) := by
+  have e1 := execPrim_frame cx op imms a b.scratch st h
   rw [← hw.2] at e1
   rw [e1]
-  have e3 : execPrim cx op imms { a with scratch := a.scratch } st = execPrim cx op imms a st := rfl
-  rw [e3] at e2
   cases hA : execPrim cx op imms a st with
   | error f => simp only [Except.map, CongR]
   | ok x =>
     obtain ⟨st', a'⟩ := x
-    rw [hA] at e2
-    simp only [Except.map, setSc, Except.ok.injEq, Prod.mk.injEq, true_and] at e2
+    have hs : a'.scratch = a.scratch := framed_scratch h cx imms hA
     simp only [Except.map, setSc, CongR, true_and]
-    have hs : a'.scratch = a.scratch := by rw [e2]
-    refine ⟨fun s => ?_, rfl⟩
+    refine ⟨fun s hsI => ?_, rfl⟩
     simp only [hs]
-    exact hw.1 s
+    exact hw.1 s hsI
 
-theorem congR_loads (cx : Ctx) (imms : List String) {a b : World} (hw : SameW a b) (st : List Val) :
-    CongR (execPrim cx "loads" imms a st) (execPrim cx "loads" imms b st) := by
+theorem congR_loads (cx : Ctx) (imms : List String) {a b : World} (hw : SameW [] a b) (st : List Val) :
+    CongR [] (execPrim cx "loads" imms a st) (execPrim cx "loads" imms b st) := by
   unfold execPrim
   repeat rw [m20_loads]
   match st with
@@ -47,12 +51,12 @@ theorem congR_loads (cx : Ctx) (imms : List String) {a b : World} (hw : SameW a 
   | .b x :: r => simp [pop1, asU, CongR, bind, Except.bind]
   | .u s :: r =>
     by_cases hs : s < 256
-    · simp only [pop1, asU, bind, Except.bind, hs, if_true, pure, Except.pure, CongR, hw.1 s, true_and]
+    · simp only [pop1, asU, bind, Except.bind, hs, if_true, pure, Except.pure, CongR, hw.1 s (by simp), true_and]
       exact hw
     · simp [pop1, asU, bind, Except.bind, hs, CongR, throw, throwThe, MonadExceptOf.throw]
 
-theorem congR_stores (cx : Ctx) (imms : List String) {a b : World} (hw : SameW a b) (st : List Val) :
-    CongR (execPrim cx "stores" imms a st) (execPrim cx "stores" imms b st) := by
+theorem congR_stores (cx : Ctx) (imms : List String) {a b : World} (hw : SameW [] a b) (st : List Val) :
+    CongR [] (execPrim cx "stores" imms a st) (execPrim cx "stores" imms b st) := by
   unfold execPrim
   repeat rw [m20_stores]
   match st with
@@ -65,25 +69,107 @@ theorem congR_stores (cx : Ctx) (imms : List String) {a b : World} (hw : SameW a
       exact hw.set s v
     · simp [pop2, asU, bind, Except.bind, hs, CongR, throw, throwThe, MonadExceptOf.throw]
 
-/-- **`execPrim` respects `SameW`** on the opcodes of the fragment -/
-theorem execPrim_sameW {op : String} {k p : Nat} (h : primSigR op = some (k, p)) (cx : Ctx) (imms : List String)
-    {a b : World} (hw : SameW a b) (st : List Val) :
-    CongR (execPrim cx op imms a st) (execPrim cx op imms b st) := by
-  unfold primSigR at h
-  split at h
-  · rename_i hop
-    simp only [Bool.or_eq_true, beq_iff_eq] at hop
-    rcases hop with (hop | hop) | hop
-    · exact congR_framed hop cx imms hw st
-    · subst hop; exact congR_loads cx imms hw st
-    · subst hop; exact congR_stores cx imms hw st
-  · cases h
+/-- the three kinds of opcodes of the fragment -/
+inductive OpKind (K : RK) (op : String) : Prop
+  | framed : framedOps.contains op = true → OpKind K op
+  | slot : K.ign = [] → (op = "loads" ∨ op = "stores") → OpKind K op
+  | dyn : K.ign = [] → K.dyn = true → (op = "vloads" ∨ op = "vstores") → OpKind K op
 
-theorem primSigR_primSig {op : String} {k p : Nat} (h : primSigR op = some (k, p)) :
-    Models.Fragment.primSig op = some (k, p) := by
-  unfold primSigR at h
+theorem primSigK_cases {K : RK} {op : String} {k p : Nat} (h : primSigK K op = some (k, p)) :
+    Models.Fragment.primSig op = some (k, p) ∧ OpKind K op := by
+  unfold primSigK at h
   split at h
-  · exact h
-  · cases h
+  · rename_i hI
+    have hI' : K.ign = [] := List.isEmpty_iff.mp hI
+    split at h
+    · rename_i hd
+      simp only [Bool.and_eq_true, Bool.or_eq_true, beq_iff_eq] at hd
+      exact ⟨h, .dyn hI' hd.1 hd.2⟩
+    · unfold primSigR at h
+      split at h
+      · rename_i hop
+        simp only [Bool.or_eq_true, beq_iff_eq] at hop
+        refine ⟨h, ?_⟩
+        rcases hop with (hop | hop) | hop
+        · exact .framed hop
+        · exact .slot hI' (.inl hop)
+        · exact .slot hI' (.inr hop)
+      · cases h
+  · split at h
+    · rename_i hop; exact ⟨h, .framed hop⟩
+    · cases h
+
+/-- **`execPrim` respects `SameW`** on the opcodes of the fragment that the machine executes under
+    the same name -/
+theorem execPrim_sameW {K : RK} {op : String} (hk : framedOps.contains op = true ∨ (K.ign = [] ∧ (op = "loads" ∨ op = "stores")))
+    (cx : Ctx) (imms : List String) {a b : World} (hw : SameW K.ign a b) (st : List Val) :
+    CongR K.ign (execPrim cx op imms a st) (execPrim cx op imms b st) := by
+  rcases hk with hf | ⟨hI, hop | hop⟩
+  · exact congR_framed hf cx imms hw st
+  · subst hop; rw [hI] at hw ⊢; exact congR_loads cx imms hw st
+  · subst hop; rw [hI] at hw ⊢; exact congR_stores cx imms hw st
+
+/-- the ignored slots are left alone by the opcodes of the fragment -/
+theorem execPrim_ign {K : RK} {op : String} {k p : Nat} (h : primSigK K op = some (k, p)) (cx : Ctx)
+    (imms : List String) {a a' : World} {st st' : List Val} (hA : execPrim cx op imms a st = .ok (st', a')) :
+    ∀ s, s ∈ K.ign → getSlot a'.scratch s = getSlot a.scratch s := by
+  intro s hs
+  cases (primSigK_cases h).2 with
+  | framed hf => rw [framed_scratch hf cx imms hA]
+  | slot hI _ => rw [hI] at hs; cases hs
+  | dyn hI _ _ => rw [hI] at hs; cases hs
+
+/-! closed forms of the run-time addressed slot opcodes -/
+
+theorem exec_vloads_u (cx : Ctx) (imms : List String) (w : World) (s : Nat) (r : List Val) :
+    execPrim cx "vloads" imms w (.u s :: r) = .ok (getSlot w.scratch s :: r, w) := by
+  unfold execPrim
+  repeat rw [m20_vloads]
+  rfl
+theorem exec_vloads_b (cx : Ctx) (imms : List String) (w : World) (x : Bytes) (r : List Val) :
+    execPrim cx "vloads" imms w (.b x :: r) = .error (.typeErr "expected uint64") := by
+  unfold execPrim
+  repeat rw [m20_vloads]
+  rfl
+theorem exec_loads_u (cx : Ctx) (imms : List String) (w : World) (s : Nat) (r : List Val) :
+    execPrim cx "loads" imms w (.u s :: r) =
+      if s < 256 then .ok (getSlot w.scratch s :: r, w) else .error (.logic "loads slot out of range") := by
+  unfold execPrim
+  repeat rw [m20_loads]
+  by_cases h : s < 256 <;> simp [pop1, asU, bind, Except.bind, h, pure, Except.pure, throw, throwThe, MonadExceptOf.throw]
+theorem exec_loads_b (cx : Ctx) (imms : List String) (w : World) (x : Bytes) (r : List Val) :
+    execPrim cx "loads" imms w (.b x :: r) = .error (.typeErr "expected uint64") := by
+  unfold execPrim
+  repeat rw [m20_loads]
+  rfl
+theorem exec_vstores_u (cx : Ctx) (imms : List String) (w : World) (s : Nat) (b : Val) (r : List Val) :
+    execPrim cx "vstores" imms w (b :: .u s :: r) = .ok (r, { w with scratch := setSlot w.scratch s b }) := by
+  unfold execPrim
+  repeat rw [m20_vstores]
+  rfl
+theorem exec_vstores_b (cx : Ctx) (imms : List String) (w : World) (x : Bytes) (b : Val) (r : List Val) :
+    execPrim cx "vstores" imms w (b :: .b x :: r) = .error (.typeErr "expected uint64") := by
+  unfold execPrim
+  repeat rw [m20_vstores]
+  rfl
+theorem exec_stores_u (cx : Ctx) (imms : List String) (w : World) (s : Nat) (b : Val) (r : List Val) :
+    execPrim cx "stores" imms w (b :: .u s :: r) =
+      if s < 256 then .ok (r, { w with scratch := setSlot w.scratch s b }) else .error (.logic "stores slot out of range") := by
+  unfold execPrim
+  repeat rw [m20_stores]
+  by_cases h : s < 256 <;> simp [pop2, asU, bind, Except.bind, h, pure, Except.pure, throw, throwThe, MonadExceptOf.throw]
+theorem exec_stores_b (cx : Ctx) (imms : List String) (w : World) (x : Bytes) (b : Val) (r : List Val) :
+    execPrim cx "stores" imms w (b :: .b x :: r) = .error (.typeErr "expected uint64") := by
+  unfold execPrim
+  repeat rw [m20_stores]
+  rfl
+
+theorem primSigK_of_framed {K : RK} {op : String} (h : framedOps.contains op = true) :
+    primSigK K op = Models.Fragment.primSig op := by
+  unfold primSigK primSigR
+  simp only [h, Bool.true_or, if_true, ite_self]
+
+theorem primSigK_primSig {K : RK} {op : String} {k p : Nat} (h : primSigK K op = some (k, p)) :
+    Models.Fragment.primSig op = some (k, p) := (primSigK_cases h).1
 
 end PyTealV.Proofs.C02Gen
